@@ -611,6 +611,19 @@ func (lr *lifeRun) act(a string) string {
 			time.Sleep(5 * time.Millisecond)
 		}
 		return "ok"
+	case "crash": // crash:<id>: the client's request makes the application's handler panic; the server drops this connection
+		if cl := lr.clients[f[1]]; cl != nil {
+			lr.double.panicKey = "boom!"
+			r := roundTrip(cl.conn, reqS("GET", "boom!"))
+			st := lr.clientAlive(cl)
+			cl.conn.Close()
+			delete(lr.clients, f[1])
+			if st == "down" {
+				return "down"
+			}
+			return st + ":" + r
+		}
+		return "gone"
 	case "flood": // flood:<id>: requests with large replies, none of them read: the server's write to this client blocks
 		if cl := lr.clients[f[1]]; cl != nil {
 			req := requestBytes([][]byte{[]byte("ECHO"), bytes.Repeat([]byte{'x'}, 256<<10)}, nil)
